@@ -12,6 +12,17 @@ let e_pvs = e_list e_pv
 (* canonical form of a clause for comparison: trailing unset cells dropped (the same normalisation e_pv prints) *)
 let same_clauses (a : pval list) (b : pval list) = to_string (e_pvs a) = to_string (e_pvs b)
 
+(* to_dnf / to_cnf: the reported list is the one of the faithful machine (Model/Dnf.v: explicit stack + mutable path for
+   to_dnf, the recursion with the threaded path for to_cnf); the I/O-equivalent DFS lists of Model/Paths.v are recomputed
+   alongside.  Proofs/DnfSem.v to_dnf_faithful_eq / to_cnf_faithful_eq prove them equal (up to the trailing unset cells the
+   mutable path accumulates, which e_pv drops) for every operand that passes wfb: a difference there is a machinery error. *)
+let nf_lists faithful dfs (b : bdd) : s =
+  let f = faithful b in
+  (match f with
+   | Ok l when same_clauses l (dfs b) -> ()
+   | _ -> if wfb b then raise (Bad "dnf-models-disagree"));
+  e_outcome e_pvs f
+
 let run (c : s list) : s option =
   match c with
   | A ("sat_clauses" | "into_sat_clauses") :: x :: _ ->
@@ -20,8 +31,8 @@ let run (c : s list) : s option =
         | Ok l -> if same_clauses l (sat_clauses b) then e_pvs l else A "BAD:path_iter<>paths"
         | Panic -> A "PANIC"
         | OutOfFuel -> A "FUEL")
-  | A "to_dnf" :: x :: _ -> Some (e_pvs (to_dnf (d_bdd x)))
-  | A "to_cnf" :: x :: _ -> Some (e_pvs (to_cnf (d_bdd x)))
+  | A "to_dnf" :: x :: _ -> Some (nf_lists to_dnf_faithful to_dnf (d_bdd x))
+  | A "to_cnf" :: x :: _ -> Some (nf_lists to_cnf_faithful to_cnf (d_bdd x))
   | A ("sat_valuations" | "into_sat_valuations") :: x :: _ ->
     let b = d_bdd x in
     Some (match sat_valuations_iter b with
